@@ -10,6 +10,13 @@
 (*   role 3  position: fixed content          (repeated on every page)     *)
 (*   role 4  running element (repeated in a margin box of every page from  *)
 (*           the page of its anchor on)                                    *)
+(*   role 5  the word of a float that sits INSIDE a paragraph (kind "pfl": *)
+(*           laid out once, on the page of its line or a later one)        *)
+(* Blank pages: a "side" item asks for a page of a given side; the page    *)
+(* inserted to get there carries the marker token [0, 9, 0], no content of *)
+(* the main flow (it may carry the continuation of a float or of an        *)
+(* absolutely positioned item; fixed content and running elements are      *)
+(* repeated on it as on every page, CSS 2.1 9.6.1).                        *)
 (* In-flow items are fragmented in document order; floats and absolutely   *)
 (* positioned items are flows of their own, anchored in the main flow.     *)
 (*                                                                         *)
@@ -24,10 +31,10 @@ EXTENDS Integers, Sequences, FiniteSets, TLC, Json
 
 CONSTANTS MaxItems, MaxN, Kinds, OneCfg, MaxOpt
 
-VARIABLES doc, cfg, c, opos, ranch, cur, pages, phase
-vars == <<doc, cfg, c, opos, ranch, cur, pages, phase>>
+VARIABLES doc, cfg, c, opos, ranch, cur, pages, phase, blank, ifl
+vars == <<doc, cfg, c, opos, ranch, cur, pages, phase, blank, ifl>>
 
-AllKinds == {"p", "table", "float", "abs", "fixed", "running", "ib", "cols", "flex", "list", "pre", "grid", "rel", "span", "glue", "stack"}
+AllKinds == {"p", "table", "float", "abs", "fixed", "running", "ib", "cols", "flex", "list", "pre", "grid", "rel", "span", "glue", "stack", "side", "pfl"}
 OutOfFlow == {"float", "abs"}
 Repeated == {"fixed", "running"}
 Item == [kind : Kinds, n : 1..MaxN, wrap : 0..MaxOpt, hdr : BOOLEAN, ftr : BOOLEAN, opt : 0..MaxOpt]
@@ -36,6 +43,8 @@ WellFormed(it) == (it.kind # "table" => ~it.hdr /\ ~it.ftr) /\ (it.kind \in Repe
 Cfg == IF OneCfg THEN {[H |-> 3, W |-> 6, ow |-> 1]} ELSE [H : 2..5, W : {6, 12, 16, 20}, ow : 1..2]
 
 Tok(i, r, k) == [it |-> i, role |-> r, k |-> k]
+Marker == Tok(0, 9, 0)                      \* first token of a blank page
+IFToks(d, i) == IF d[i].kind = "pfl" THEN <<Tok(i, 5, 1)>> ELSE <<>>
 BodyToks(d, i) ==
   LET x == d[i] IN
   CASE x.kind = "table" -> [k \in 1..(2 * x.n) |-> Tok(i, 0, k)]          \* two cells per row
@@ -60,8 +69,10 @@ MainFlow(d) == LET RECURSIVE F(_)
 RECURSIVE Concat(_)
 Concat(ps) == IF ps = <<>> THEN <<>> ELSE Head(ps) \o Concat(Tail(ps))
 Count(s, t) == Cardinality({q \in 1..Len(s) : s[q] = t})
-Accept(d, ps) ==
-  LET all == Concat(ps)
+Accept(d, ps0) ==
+  LET B == {p \in 1..Len(ps0) : \E q \in 1..Len(ps0[p]) : ps0[p][q] = Marker}          \* the blank pages
+      ps == [p \in 1..Len(ps0) |-> SelectSeq(ps0[p], LAMBDA t : t # Marker)]
+      all == Concat(ps)
       main == SelectSeq(all, LAMBDA t : t.role = 0 /\ InFlowItem(d, t.it))
       want == MainFlow(d) IN
   IF \E q \in 1..Len(all) : all[q].it \notin 1..Len(d) THEN "unknown-text"
@@ -79,6 +90,10 @@ Accept(d, ps) ==
             \E t \in {HeadToks(d, i)[q] : q \in 1..Len(HeadToks(d, i))} \cup {FootToks(d, i)[q] : q \in 1..Len(FootToks(d, i))} :
                IF onpage THEN Count(ps[p], t) # 1 ELSE (Count(ps[p], t) # 0 /\ ~(cont /\ Count(ps[p], t) = 1))
           THEN "table-header-footer-not-once-per-fragment"
+  ELSE IF \E p \in B : \E q \in 1..Len(ps[p]) : ps[p][q].role \in {0, 1, 2} /\ InFlowItem(d, ps[p][q].it) THEN "main-flow-content-on-a-blank-page"
+  ELSE IF \E p \in B : p = 1 \/ p - 1 \in B THEN "blank-page-not-between-two-pages"
+  ELSE IF \E i \in 1..Len(d) : d[i].kind = "pfl" /\ Count(all, Tok(i, 5, 1)) = 0 THEN "float-inside-paragraph-lost"
+  ELSE IF \E i \in 1..Len(d) : d[i].kind = "pfl" /\ Count(all, Tok(i, 5, 1)) > 1 THEN "float-inside-paragraph-duplicated"
   ELSE IF \E p \in 1..Len(ps) : \E i \in 1..Len(d) : d[i].kind = "fixed" /\ Count(ps[p], Tok(i, 3, 1)) # 1 THEN "fixed-not-once-per-page"
   ELSE IF \E i \in 1..Len(d) : d[i].kind = "running" /\
             LET on == {p \in 1..Len(ps) : Count(ps[p], Tok(i, 4, 1)) > 0}
@@ -87,50 +102,65 @@ Accept(d, ps) ==
             \/ (\E p \in on : \E q \in (p + 1)..Len(ps) : q \notin on)        \* from the page of its anchor on, every page
             \/ (\E p \in later : \A q \in on : q > p)                          \* not later than the content that follows it
        THEN "running-element-not-once-per-page-from-its-anchor-on"
+  ELSE IF \E q \in 1..Len(all) : all[q].role \notin 0..5 \/ (all[q].role = 5 /\ d[all[q].it].kind # "pfl") THEN "unknown-text"
   ELSE IF \E q \in 1..Len(all) : all[q].role \in {1, 2} /\ all[q] \notin ({HeadToks(d, all[q].it)[z] : z \in 1..Len(HeadToks(d, all[q].it))} \cup {FootToks(d, all[q].it)[z] : z \in 1..Len(FootToks(d, all[q].it))}) THEN "unknown-text"
   ELSE "ok"
 
 ---------------------------------------------------------------------------
 \* building the document (one item at a time, so that simulation can sample large documents)
 InitBuild == /\ doc = <<>> /\ cfg \in Cfg /\ c = 1 /\ opos = <<>> /\ ranch = {} /\ cur = <<>> /\ pages = <<>> /\ phase = "build"
+             /\ blank = FALSE /\ ifl = {}
 AddItem == /\ phase = "build" /\ Len(doc) < MaxItems
            /\ \E it \in Item : /\ WellFormed(it)
                                /\ (doc = <<>> => it.kind \notin Repeated)
                                /\ (it.kind = "running" => \A j \in 1..Len(doc) : doc[j].kind # "running")
                                /\ doc' = Append(doc, it)
-           /\ UNCHANGED <<cfg, c, opos, ranch, cur, pages, phase>>
+           /\ UNCHANGED <<cfg, c, opos, ranch, cur, pages, phase, blank, ifl>>
 EndBuild == /\ phase = "build" /\ Len(doc) = MaxItems
             /\ phase' = "built" /\ opos' = [j \in 1..Len(doc) |-> 1]
-            /\ UNCHANGED <<doc, cfg, c, ranch, cur, pages>>
-Start == /\ phase = "built" /\ phase' = "paginate" /\ UNCHANGED <<doc, cfg, c, opos, ranch, cur, pages>>
+            /\ UNCHANGED <<doc, cfg, c, ranch, cur, pages, blank, ifl>>
+Start == /\ phase = "built" /\ phase' = "paginate" /\ UNCHANGED <<doc, cfg, c, opos, ranch, cur, pages, blank, ifl>>
 
 \* the non-deterministic fragmenter
 HasBody(s, i) == \E q \in 1..Len(s) : s[q].it = i /\ s[q].role = 0
 \* index of the in-flow item that the cursor is in (Len(doc)+1 at the end)
 CursorItem == IF c > Len(MainFlow(doc)) THEN Len(doc) + 1 ELSE MainFlow(doc)[c].it
-PlaceMain == /\ phase = "paginate" /\ c <= Len(MainFlow(doc))
+PlaceMain == /\ phase = "paginate" /\ c <= Len(MainFlow(doc)) /\ ~blank
              /\ \A i \in 1..Len(doc) : (doc[i].kind = "running" /\ i < MainFlow(doc)[c].it) => i \in ranch   \* anchors are passed in order
              /\ LET t == MainFlow(doc)[c] IN
                 cur' = (IF doc[t.it].kind = "table" /\ ~HasBody(cur, t.it) THEN cur \o HeadToks(doc, t.it) ELSE cur) \o <<t>>
-             /\ c' = c + 1 /\ UNCHANGED <<doc, cfg, opos, ranch, pages, phase>>
+             /\ c' = c + 1 /\ UNCHANGED <<doc, cfg, opos, ranch, pages, phase, blank, ifl>>
 \* a float / absolutely positioned item is laid out once the main flow has reached its anchor, on this page or a later one
 PlaceOut(i) == /\ phase = "paginate" /\ i \in 1..Len(doc) /\ doc[i].kind \in OutOfFlow
                /\ opos[i] <= Len(BodyToks(doc, i)) /\ CursorItem > i
                /\ cur' = Append(cur, BodyToks(doc, i)[opos[i]])
-               /\ opos' = [opos EXCEPT ![i] = @ + 1] /\ UNCHANGED <<doc, cfg, c, ranch, pages, phase>>
+               /\ opos' = [opos EXCEPT ![i] = @ + 1] /\ UNCHANGED <<doc, cfg, c, ranch, pages, phase, blank, ifl>>
+\* the float inside a paragraph is laid out once the main flow has entered the paragraph, on this page or a later one
+PlaceIFloat(i) == /\ phase = "paginate" /\ i \in 1..Len(doc) /\ doc[i].kind = "pfl" /\ i \notin ifl
+                  /\ (CursorItem > i \/ (CursorItem = i /\ MainFlow(doc)[c].k > 1))
+                  /\ cur' = Append(cur, Tok(i, 5, 1)) /\ ifl' = ifl \cup {i}
+                  /\ UNCHANGED <<doc, cfg, c, opos, ranch, pages, phase, blank>>
 Closed(s) == LET RECURSIVE F(_)
                  F(i) == IF i = 0 THEN <<>> ELSE F(i - 1) \o (IF doc[i].kind = "table" /\ HasBody(s, i) THEN FootToks(doc, i) ELSE <<>>)
              IN s \o F(Len(doc)) \o PageToks(doc, ranch)
 \* the anchor of a running element is passed once the main flow has reached it (on this page or, at a page boundary, the next)
 PassAnchor(i) == /\ phase = "paginate" /\ i \in 1..Len(doc) /\ doc[i].kind = "running" /\ i \notin ranch /\ CursorItem > i
-                 /\ ranch' = ranch \cup {i} /\ UNCHANGED <<doc, cfg, c, opos, cur, pages, phase>>
+                 /\ ranch' = ranch \cup {i} /\ UNCHANGED <<doc, cfg, c, opos, cur, pages, phase, blank, ifl>>
 AllPlaced == /\ c > Len(MainFlow(doc)) /\ \A i \in 1..Len(doc) : doc[i].kind \in OutOfFlow => opos[i] > Len(BodyToks(doc, i))
              /\ \A i \in 1..Len(doc) : doc[i].kind = "running" => i \in ranch
-ClosePage == /\ phase = "paginate" /\ cur # <<>> /\ ~AllPlaced
-             /\ pages' = Append(pages, Closed(cur)) /\ cur' = <<>> /\ UNCHANGED <<doc, cfg, c, opos, ranch, phase>>
-Finish == /\ phase = "paginate" /\ AllPlaced
-          /\ pages' = Append(pages, Closed(cur)) /\ cur' = <<>> /\ phase' = "done" /\ UNCHANGED <<doc, cfg, c, opos, ranch>>
-Next == AddItem \/ EndBuild \/ Start \/ PlaceMain \/ (\E i \in 1..MaxItems : PlaceOut(i) \/ PassAnchor(i)) \/ ClosePage \/ Finish
+             /\ \A i \in 1..Len(doc) : doc[i].kind = "pfl" => i \in ifl
+ClosePage == /\ phase = "paginate" /\ cur # <<>> /\ ~AllPlaced /\ ~blank
+             /\ pages' = Append(pages, Closed(cur)) /\ cur' = <<>> /\ UNCHANGED <<doc, cfg, c, opos, ranch, phase, blank, ifl>>
+\* a blank page: before an item that asks for a page of a given side, at most one, between two pages
+StartBlank == /\ phase = "paginate" /\ ~blank /\ cur = <<>> /\ pages # <<>> /\ Head(pages[Len(pages)]) # Marker
+              /\ c <= Len(MainFlow(doc)) /\ doc[MainFlow(doc)[c].it].kind = "side" /\ MainFlow(doc)[c].k = 1
+              /\ blank' = TRUE /\ cur' = <<Marker>> /\ UNCHANGED <<doc, cfg, c, opos, ranch, pages, phase, ifl>>
+CloseBlank == /\ phase = "paginate" /\ blank
+              /\ pages' = Append(pages, cur \o PageToks(doc, ranch)) /\ cur' = <<>> /\ blank' = FALSE
+              /\ UNCHANGED <<doc, cfg, c, opos, ranch, phase, ifl>>
+Finish == /\ phase = "paginate" /\ AllPlaced /\ ~blank
+          /\ pages' = Append(pages, Closed(cur)) /\ cur' = <<>> /\ phase' = "done" /\ UNCHANGED <<doc, cfg, c, opos, ranch, blank, ifl>>
+Next == AddItem \/ EndBuild \/ Start \/ PlaceMain \/ (\E i \in 1..MaxItems : PlaceOut(i) \/ PassAnchor(i) \/ PlaceIFloat(i)) \/ ClosePage \/ StartBlank \/ CloseBlank \/ Finish
 Spec == InitBuild /\ [][Next]_vars /\ WF_vars(Next)
 
 \* every behaviour of the fragmenter conserves content, wherever the breaks fall
